@@ -47,6 +47,8 @@ def run_seed(args):
             r = subprocess.run([sys.executable, "-m", "sa.run", pid, "--repo", scratch, "--no-evidence"],
                                cwd=VERIF, env=env, capture_output=True, text=True)
             txt = r.stdout + r.stderr
+            if os.environ.get("SEEDED_DEBUG"):
+                open(os.path.join(os.environ["SEEDED_DEBUG"], "%s-%s.txt" % (sid, pid)), "w").write("slot %d\n" % slot + txt)
             if "does not build" in txt:
                 out["results"][pid] = "nobuild"
             elif r.returncode == 1 and "VIOLATION" in txt:
